@@ -26,11 +26,54 @@ def solver_check(fn):
                 raise
             R, tech = holder["R"], holder.get("tech", "abstract interpretation")
         R.add(SA.fault_obs())
+        R.add(path_uniformity(SA))
         R.analysed["paths"] = SA.nruns
         return R, tech
 
     wrapper.__name__ = fn.__name__
     return wrapper
+
+
+def path_uniformity(SA):
+    """Rules are evaluated on one representative path per (clamp outcome, shift) case.  Any further
+    case distinction made by the code must not change the result: all return paths of a case must
+    yield the same output coefficients, transforms and shapes as its representative."""
+    obs = []
+    for key, (S, res) in SA.runs.items():
+        groups = {}
+        for r in res:
+            if r.kind != "return":
+                continue
+            try:
+                v = RS.PathView(S, r)
+            except AnalysisError:
+                continue
+            groups.setdefault((v.clamp_state(), v.shifted()), []).append(v)
+        for gk, vs in groups.items():
+            if len(vs) < 2 or not any(getattr(w.r, "_used", False) for w in vs):
+                continue
+            ref = vs[0]
+            for w in vs[1:]:
+                same = True
+                why = None
+                for nm in ("conc", "flx"):
+                    a, b = ref.coeff(nm), w.coeff(nm)
+                    if isinstance(a, Expr) and isinstance(b, Expr):
+                        if not a.eq(b):
+                            same, why = False, "%s coefficient differs" % nm
+                    elif not (a is b or repr(a) == repr(b)):
+                        same, why = False, "%s coefficient not comparable" % nm
+                    sa, sb = ref.fields[nm]["synth"], w.fields[nm]["synth"]
+                    if sa["dir"] != sb["dir"] or not sa["scale"].eq(sb["scale"]):
+                        same, why = False, "%s output transform differs" % nm
+                    s1, s2 = getattr(ref, nm).shape, getattr(w, nm).shape
+                    if s1 is None or s2 is None or len(s1) != len(s2) or not all(x.eq(y) for x, y in zip(s1, s2)):
+                        same, why = False, "%s shape differs" % nm
+                extra = [d for d in w.r.path if d not in ref.r.path]
+                obs.append(req_ob("R-PATHS", "src/bldfm/solver.py::steady_state_transport_solver (footprint=%s analytic=%s %s mode, halo %s)" % (key[0], key[1], key[2], key[3]),
+                                  "case distinctions other than clamp / re-centring do not change the result (case %s)" % (gk,), same,
+                                  detail=None if same else "%s on the path taking %s" % (why, [(d[0][:80], d[1]) for d in extra][:3])))
+    return obs
 
 
 def _one(vs, what):
@@ -167,8 +210,16 @@ def mean_obligations(w, footprint, rule):
     obs.append(eq_ob(rule, w.site("mean flux"), "mean-mode flux at every level is the mean surface flux", w.coeff("flx"), q00,
                      "q00(z) = q00 (conservation)", key={"out": "flx"}))
     loops = w.mean_loops()
+    if not loops:
+        # no Python loop (e.g. a vectorised prefix sum): compare the result directly with the trapezoidal resistance sum
+        iv = alg.sym_atom("j#spec", integer=True)
+        j = alg.atom_expr(iv)
+        trap = -q00 * (S.z.at(j + ONE) - S.z.at(j)) * (ONE / S.Kz.at(j) + ONE / S.Kz.at(j + ONE)) / 2
+        obs.append(eq_ob(rule, site, "mean concentration at a requested level is p000 minus q00 times the trapezoidal resistance below it", w.coeff("conc"),
+                         S.p000 + psum(trap, iv, ZERO, lev), "p00(l) = p000 - q00 sum_{i<l} dz_i (1/Kz_i + 1/Kz_{i+1})/2", key={"out": "conc"}))
+        return obs
     if len(loops) != 1:
-        obs.append(req_ob(rule, site, "one accumulating sweep for the mean concentration", None if not loops else False, detail="%d found" % len(loops)))
+        obs.append(req_ob(rule, site, "one accumulating sweep for the mean concentration", False, detail="%d found" % len(loops)))
         return obs
     L = loops[0]
     var = L.state[0]
@@ -564,10 +615,13 @@ def check_C06(P, tier, SA, holder):
         cf = f.coeff(nm)
         if isinstance(cf, Expr):
             R.add(eq_ob("R-PHASE", f.site("footprint shift"), "%s: moving the tower multiplies mode (kx,ky) by exp(i(lx xm + ly ym))" % nm, cf, alg.exp(IMAG * (lx * S.xm + ly * S.ym)) * cf.subs(z0), key={"out": nm}))
-        c0, c1 = d0.coeff(nm), d1.coeff(nm)
-        if isinstance(c0, Expr) and isinstance(c1, Expr):
-            R.add(eq_ob("R-PHASE", d1.site("dispersion re-centring"), "%s: re-centring factor is exp(i(lx(xm-xmax/2)+ly(ym-ymax/2)))" % nm, c1,
-                        alg.exp(IMAG * (lx * (S.xm - S.xmx / 2) + ly * (S.ym - S.ymx / 2))) * c0, "value at the domain centre is the field at (xm, ym)", key={"out": nm}))
+        c0 = d0.coeff(nm)
+        for dk in pick(vd, shifted=True):
+            c1 = dk.coeff(nm)
+            if isinstance(c0, Expr) and isinstance(c1, Expr):
+                R.add(eq_ob("R-PHASE", dk.site("dispersion re-centring"), "%s: re-centring factor is exp(i(lx(xm-xmax/2)+ly(ym-ymax/2))) on every path with a non-zero measurement point" % nm, c1,
+                            alg.exp(IMAG * (lx * (S.xm - S.xmx / 2) + ly * (S.ym - S.ymx / 2))) * c0, "value at the domain centre is the field at (xm, ym)", key={"out": nm}))
+        if isinstance(c0, Expr):
             R.add(req_ob("R-PHASE", d1.site("dispersion re-centring"), "%s: unshifted path carries no tower dependence" % nm, not ({atom_of(S.xm), atom_of(S.ym)} & c0.atoms())))
     kx = alg.fn("fftidx", f.nlx_eff, integer=True)
     R.add(eq_ob("R-PHASE", f.site("wavenumbers"), "lx*dx = 2 pi k/nxe with integer k (whole-cell shifts are exact)", lx * f.dx, 2 * RS.PI() * kx / f.Nx))
@@ -737,6 +791,16 @@ def level_store_obligations(v, S, ctx):
     if ctx == "generic":
         relevant = [L for L in relevant if L.kind == "linear"]
     if len(relevant) < want:
+        if not relevant and ctx == "mean":
+            # no sweep with per-level stores at the mean mode: the slot/level correspondence is decided on the output normal form instead
+            lev = RS.level_atom(S)
+            c = v.coeff("conc")
+            ok = isinstance(c, Expr)
+            obs.append(req_ob("R-LVL-STATE", site0, "without a level sweep the mean concentration of slot k is an explicit function of levels[k]", ok if ok else None, detail=None if ok else repr(c)[:200]))
+            l0 = v.fields["conc"]["synth"].get("lvl0")
+            obs.append(req_ob("R-LVL-SIBLING", site0, "every level slot is computed by the same rule (no slot is written separately)", l0 is None,
+                              detail=None if l0 is None else "slot 0 holds %s while the other slots hold %s" % (str(l0)[:150], str(c)[:150])))
+            return obs
         obs.append(req_ob("R-LVL-STATE", site0, "%d sweep(s) store per-level results at the %s mode" % (want, ctx), None if not relevant else False, detail="%d found" % len(relevant)))
         return obs
     for L in relevant:
@@ -849,5 +913,9 @@ def check_C11(P, tier, SA, holder):
                     if cy is True and cx is not True:
                         okj = ex.eq(v.Nx) or ex.eq(S.nlx) or ex.eq(alg.fmin(S.nlx, v.Nx.expand()))
                         R.add(req_ob("R-CLAMP", site, "x mode count is the padded size (joint clamp) or its own clamp when only y exceeds", okj, detail="effective %r" % (ex,)))
+    # "correctly registered": the footprint sits at the cropped cells (shared with C02)
+    for halo in ("given", "none"):
+        obs_r, _f, _d = registration_obligations(SA, halo, "R-SHAPE-OUT", "R-SHAPE-OUT")
+        R.add(obs_r)
     R.analysed = {"files": ["src/bldfm/solver.py"], "functions": ["steady_state_transport_solver"], "paths": SA.nruns}
     return R, "symbolic shapes with parity facts; clamp decision tables; truncation typestate"
